@@ -185,6 +185,26 @@ func ruleSeqhash(c *Ctx, prop string) {
 			}
 		})
 	}
+	// a mode input packed into a record, or handed to a function the valuation does not enter (a stage
+	// function, a method of a job type): the decisions taken on it are made out of sight
+	for k := 1; k <= 3 && k < len(h.Params); k++ {
+		par := h.Params[k]
+		if par.Referrers() == nil {
+			continue
+		}
+		for _, r := range *par.Referrers() {
+			switch x := r.(type) {
+			case *ssa.Store:
+				if _, isField := x.Addr.(*ssa.FieldAddr); isField && x.Val == ssa.Value(par) {
+					typeEvaluable = false
+				}
+			case ssa.CallInstruction:
+				if n := calleeName(x); !strings.HasPrefix(n, "strings.") && !strings.HasPrefix(n, "builtin:") {
+					typeEvaluable = false
+				}
+			}
+		}
+	}
 	for _, typ := range []string{"DNA", "RNA", "PROTEIN"} {
 		for _, circ := range []bool{true, false} {
 			for _, ds := range []bool{true, false} {
@@ -242,7 +262,9 @@ func ruleSeqhash(c *Ctx, prop string) {
 							st = broken
 						}
 						// x itself written differently (e.g. U->T before upper-casing): same vocabulary, different arrangement
-						if !got.known() {
+						// (only when the valuation really decides every branch on the type: otherwise the merge of the
+						// RNA and DNA spellings is an artefact of the analysis, not of the code)
+						if !got.known() && typeEvaluable {
 							raw := tb.T(cz.resolve(cv.X))
 							if os.Getenv("DEBUG_STATE") != "" {
 								fmt.Println("DEBUG canon raw:", raw.String())
@@ -282,7 +304,10 @@ func ruleSeqhash(c *Ctx, prop string) {
 		}
 		v := tb.T(r.Results[0])
 		if !v.isConst(`""`) {
-			if v.Op == "const" || v.contains(func(x *Term) bool { return x.isCall("encoding/hex.EncodeToString") }) {
+			// the return that follows a recovered panic hands back the named results as they stand: a merge of
+			// whatever was assigned, not a value this return computes
+			merged := r.Block() == h.Recover || v.Op == "anyof" || v.Op == "phi" || v.Op == "alloc" || v.Op == "rec"
+			if !merged && (v.Op == "const" || v.contains(func(x *Term) bool { return x.isCall("encoding/hex.EncodeToString") })) {
 				okErr = broken
 			} else if okErr == holds {
 				okErr = unknown
